@@ -17,7 +17,7 @@ import (
 func init() {
 	register(&Spec{ID: "C06", Title: "Package encodings are self-consistent and match their wire layout", Run: runC06,
 		Meta: core.Meta{
-			Explanation: "R06.24: no argument of WriteUint32 in ParamFmtPackage.WriteToField passes through a narrower integer conversion. R06.22 (exhaustiveness, table confirmed by reading): the type switch of ParamsPackage.LastPkg asserts *ParamFmtPackage, *RowFmtPackage, *ParamsPackage, *RowPackage, *OrderByPackage and *OrderBy2Package. R06.23: the store of fieldFmtBase.maxLength in readFromBase dominates every success return. R06.20: every writeString call of LoginConfig.pack has its error examined. R06.21: in fieldDataBase.writeTo the last argument of writeLengthBytes is len(bs) of the slice handed to WriteBytes. R06.18 = R07.1 (E-ERR at all wire-read call sites: a package the writer produced and a packet boundary cut is retried, not mis-decoded or reported as a parse error). R06.19: for the loop-free readers that return a byte count (status, precision, scale, ENVCHANGE member) the count returned on every success path equals, as a linear form over the lengths read from the wire, the widths consumed on that path. R06.17: in CapabilityPackage.ReadFrom every update of Capabilities stores a value built by a call on the bytes just read from the channel. R06.16 (sibling agreement): readFromStatus and writeToStatus leave the status byte out under the same condition on the format status (same expression, same polarity). R06.15 (sibling-table agreement): every arm of LookupFieldFmt for a data type constant X creates exactly one <X>FieldFmt (names compared case-insensitively; the convention holds for all arms of the reviewed tree) — reader and writer share this table, so E-SHAPE cannot see a wrong entry. Decides agreement of writer and reader on the SEQUENCE OF FIELD WIDTHS (wire shape), not on values. R06.1 (E-SHAPE): for every tds type with both ReadFrom and WriteTo on a BytesChannel — packages per `wide` variant, and every distinct FieldFmt/FieldData codec pair — the SSA-derived automaton of the writer's successful executions (letters 1,2,4,8 = typed widths, S = variable run, FMT/DAT = interface-dispatched field codecs; static helpers inlined; error sides of `err != nil` pruned) minus the leading token byte is language-included in the reader's automaton; a shortest counterexample names the write site and where the reader stood. R06.2 (E-CONST): the token a writer emits is one LookupPackage maps to the same type and `wide` flag. R06.3: server-only readers (ROWFMT, ROWFMT2, ORDERBY, ORDERBY2) and TDS_ERROR accept the layout written down from the TDS 5.0 specification. R06.4: read-side byte accounting — between two wire reads of a reader that checks a declared length, the counter grows by exactly the width just read. R06.5: per-iteration parse targets are fresh (a struct filled by ReadFrom inside a loop is allocated or zeroed inside that loop). R06.6: the login record helper writeString rejects oversized fields before writing (the write is dominated by a length test against padTo whose failing edge returns an error). R06.7 (write-side length formula): for writers without loops or delegated field codecs, on every success path (branch decisions on syntactically equal conditions kept consistent) the value written as the length prefix, as a linear form const + Σ len(field), equals the sum of the widths written after it; a prefix computed from anything else (e.g. a rune count) is a violation, and the nine writers the rule applied to on the reviewed tree are its floor. R06.9 (field order): E-SHAPE compares widths and is blind to a swap of neighbouring fields of equal width, also when reader and writer are changed together; for CURINFO, ERROR, EED, DONE, LOGINACK, MSG, DYNAMIC, CURDECLARE, CURCLOSE, CURDELETE, CURFETCH, CUROPEN, CURUPDATE, LANGUAGE, OPTIONCMD and the ENVCHANGE member the order of the fields on the wire is transcribed from the TDS 5.0 specification, and on every CFG path ReadFrom assigns the fields from wire reads, and WriteTo hands them to the channel writers, in that order (every listed field must be seen). R06.11 (ParamFmtPackage.WriteTo, the one writer whose length prefix is accumulated in a loop): per `wide` variant, as linear forms over len(e.Name()), len(e.LocaleInfo()) and the element codec's own byte count, (a) what WriteToField reports equals the widths it writes on every success path, (b) the per-element increment of the pre-computed length equals that, (c) the initial value equals the fixed bytes between the length field and the elements. Premise, not checked: FormatByteLength() of a field format equals what its WriteTo writes. R06.12 (all packages with a reader and a writer): whenever ReadFrom assigns field f from the wire before field g and never the other way round, WriteTo does not send g before f on all its paths — a one-sided swap of equally wide fields, which the width comparison cannot see. R06.13 (E-CONST): for every data type listed in asetypes.ByteSizes the setMaxLength constant of its arm in LookupFieldFmt equals the listed size (the writer produces MaxLength bytes, format and readers assume ByteSize bytes; a fixed-length format carries no length on the wire). R06.14: for every package with a reader and a writer, each field that WriteTo hands to the channel on every success path is assigned from the wire on every success path of ReadFrom (a reader that stores a value only under a condition on another field drops what was written). R06.10: no append in package tds extends a slice that the same function made with a non-zero length (directly, through a loop φ, or through a field stored before the append) — `make([]T, n)` + append yields n zero elements in front of the parsed ones, which the writer then serialises with a different count and length. R06.8 (purity): nothing reachable through static calls from a package's WriteTo stores through a pointer parameter or into a package variable — serialising must not change what is serialised next time.",
+			Explanation: "R06.25: valueMask.isEmpty takes no sub-slice of the mask. R06.4 also requires that the format readers that report a byte count (ReadFromField) account for every variable-length read. R06.24: no argument of WriteUint32 in ParamFmtPackage.WriteToField passes through a narrower integer conversion. R06.22 (exhaustiveness, table confirmed by reading): the type switch of ParamsPackage.LastPkg asserts *ParamFmtPackage, *RowFmtPackage, *ParamsPackage, *RowPackage, *OrderByPackage and *OrderBy2Package. R06.23: the store of fieldFmtBase.maxLength in readFromBase dominates every success return. R06.20: every writeString call of LoginConfig.pack has its error examined. R06.21: in fieldDataBase.writeTo the last argument of writeLengthBytes is len(bs) of the slice handed to WriteBytes. R06.18 = R07.1 (E-ERR at all wire-read call sites: a package the writer produced and a packet boundary cut is retried, not mis-decoded or reported as a parse error). R06.19: for the loop-free readers that return a byte count (status, precision, scale, ENVCHANGE member) the count returned on every success path equals, as a linear form over the lengths read from the wire, the widths consumed on that path. R06.17: in CapabilityPackage.ReadFrom every update of Capabilities stores a value built by a call on the bytes just read from the channel. R06.16 (sibling agreement): readFromStatus and writeToStatus leave the status byte out under the same condition on the format status (same expression, same polarity). R06.15 (sibling-table agreement): every arm of LookupFieldFmt for a data type constant X creates exactly one <X>FieldFmt (names compared case-insensitively; the convention holds for all arms of the reviewed tree) — reader and writer share this table, so E-SHAPE cannot see a wrong entry. Decides agreement of writer and reader on the SEQUENCE OF FIELD WIDTHS (wire shape), not on values. R06.1 (E-SHAPE): for every tds type with both ReadFrom and WriteTo on a BytesChannel — packages per `wide` variant, and every distinct FieldFmt/FieldData codec pair — the SSA-derived automaton of the writer's successful executions (letters 1,2,4,8 = typed widths, S = variable run, FMT/DAT = interface-dispatched field codecs; static helpers inlined; error sides of `err != nil` pruned) minus the leading token byte is language-included in the reader's automaton; a shortest counterexample names the write site and where the reader stood. R06.2 (E-CONST): the token a writer emits is one LookupPackage maps to the same type and `wide` flag. R06.3: server-only readers (ROWFMT, ROWFMT2, ORDERBY, ORDERBY2) and TDS_ERROR accept the layout written down from the TDS 5.0 specification. R06.4: read-side byte accounting — between two wire reads of a reader that checks a declared length, the counter grows by exactly the width just read. R06.5: per-iteration parse targets are fresh (a struct filled by ReadFrom inside a loop is allocated or zeroed inside that loop). R06.6: the login record helper writeString rejects oversized fields before writing (the write is dominated by a length test against padTo whose failing edge returns an error). R06.7 (write-side length formula): for writers without loops or delegated field codecs, on every success path (branch decisions on syntactically equal conditions kept consistent) the value written as the length prefix, as a linear form const + Σ len(field), equals the sum of the widths written after it; a prefix computed from anything else (e.g. a rune count) is a violation, and the nine writers the rule applied to on the reviewed tree are its floor. R06.9 (field order): E-SHAPE compares widths and is blind to a swap of neighbouring fields of equal width, also when reader and writer are changed together; for CURINFO, ERROR, EED, DONE, LOGINACK, MSG, DYNAMIC, CURDECLARE, CURCLOSE, CURDELETE, CURFETCH, CUROPEN, CURUPDATE, LANGUAGE, OPTIONCMD and the ENVCHANGE member the order of the fields on the wire is transcribed from the TDS 5.0 specification, and on every CFG path ReadFrom assigns the fields from wire reads, and WriteTo hands them to the channel writers, in that order (every listed field must be seen). R06.11 (ParamFmtPackage.WriteTo, the one writer whose length prefix is accumulated in a loop): per `wide` variant, as linear forms over len(e.Name()), len(e.LocaleInfo()) and the element codec's own byte count, (a) what WriteToField reports equals the widths it writes on every success path, (b) the per-element increment of the pre-computed length equals that, (c) the initial value equals the fixed bytes between the length field and the elements. Premise, not checked: FormatByteLength() of a field format equals what its WriteTo writes. R06.12 (all packages with a reader and a writer): whenever ReadFrom assigns field f from the wire before field g and never the other way round, WriteTo does not send g before f on all its paths — a one-sided swap of equally wide fields, which the width comparison cannot see. R06.13 (E-CONST): for every data type listed in asetypes.ByteSizes the setMaxLength constant of its arm in LookupFieldFmt equals the listed size (the writer produces MaxLength bytes, format and readers assume ByteSize bytes; a fixed-length format carries no length on the wire). R06.14: for every package with a reader and a writer, each field that WriteTo hands to the channel on every success path is assigned from the wire on every success path of ReadFrom (a reader that stores a value only under a condition on another field drops what was written). R06.10: no append in package tds extends a slice that the same function made with a non-zero length (directly, through a loop φ, or through a field stored before the append) — `make([]T, n)` + append yields n zero elements in front of the parsed ones, which the writer then serialises with a different count and length. R06.8 (purity): nothing reachable through static calls from a package's WriteTo stores through a pointer parameter or into a package variable — serialising must not change what is serialised next time.",
 			NotDecided:  "Field values, capability bit positions, login record offsets, length maxima, and the numeric value of written length prefixes (the EED writer's length base 11 vs 16 is outside these rules) are not decided.",
 			Assumptions: []string{"the five layout lines of R06.3 transcribe the TDS 5.0 functional specification", "branch correlation is ignored on both sides equally (both languages only grow)"},
 		}})
@@ -168,8 +168,10 @@ func runC06(r *core.Run) {
 	defer lastPkgCoversFormats(r, "R06.22")
 	r.Rule("R06.23", "the maximal length of a column format is what the wire says (also 0)", 1, false)
 	defer func() {
-	r.Rule("R06.24", "a 32-bit field is written without passing through a narrower type", 1, false)
-	defer statusNotNarrowed(r, "R06.24")
+		r.Rule("R06.24", "a 32-bit field is written without passing through a narrower type", 1, false)
+		defer statusNotNarrowed(r, "R06.24")
+		r.Rule("R06.25", "a capability type is written whenever any of its capabilities is set", 1, false)
+		defer isEmptyLooksAtAll(r, "R06.25")
 		p := r.Prog
 		rfb := p.Func("tds", "fieldFmtBase", "readFromBase")
 		var rd ssa.Instruction
@@ -464,7 +466,9 @@ func widthOfLetter(l string) int64 {
 // value read from the wire ("declared length"), each wire read that is
 // followed (in the same block region before the next read) by an increment
 // of that counter must be incremented by its own width.
-func c06Accounting(r *core.Run, ef *errFlow) {
+func c06Accounting(r *core.Run, ef *errFlow) { c06AccountingAs(r, ef, "R06.4") }
+
+func c06AccountingOld(r *core.Run, ef *errFlow) {
 	p := r.Prog
 	sb := newShapeBuilder(p, ef)
 	for _, fn := range ef.SortedW() {
@@ -516,6 +520,19 @@ func c06AccountBlock(r *core.Run, sb *shapeBuilder, fn *ssa.Function, b *ssa.Bas
 			}
 		}
 		if add == nil {
+			// a format reader that reports its byte count (ReadFromField) accounts for every variable-length read
+			if l == "S" && fn.Name() == "ReadFromField" {
+				arg := call.Call.Args[len(call.Call.Args)-1]
+				counted := false
+				for _, in3 := range succ.Instrs {
+					if bo, ok := in3.(*ssa.BinOp); ok && bo.Op == token.ADD && (sameValue(core.Strip(bo.Y), core.Strip(arg)) || sameValue(core.Strip(bo.X), core.Strip(arg))) {
+						counted = true
+					}
+				}
+				if _, isC := core.ConstInt64(arg); !isC && !counted {
+					r.Bad("R06.4", core.FuncName(fn)+": "+calleeName(call)+" not accounted", call.Pos(), "a variable-length read of "+core.Expr(call.Call.Args[len(call.Call.Args)-1])+" bytes is not added to the byte count the function reports: the caller compares the count with the declared length of the format and rejects a well-formed package (e.g. a parameter format with locale information)")
+				}
+			}
 			continue // this read is not followed by an increment (e.g. length prefix, or counter-less parser)
 		}
 		key := core.FuncName(fn) + ": " + calleeName(call) + " then " + core.KExpr(add.Y)
@@ -571,6 +588,132 @@ func c06AccountBlock(r *core.Run, sb *shapeBuilder, fn *ssa.Function, b *ssa.Bas
 				}
 			}
 			r.Check(okAdd, "R06.4", key, add.Pos(),
+				"variable-length read accounted with the length that was read",
+				"a variable-length read of "+core.Expr(arg)+" bytes is accounted as "+core.Expr(addend)+" bytes")
+		}
+	}
+}
+
+func c06AccountingAs(r *core.Run, ef *errFlow, rule string) {
+	p := r.Prog
+	sb := newShapeBuilder(p, ef)
+	for _, fn := range ef.SortedW() {
+		if fn.Blocks == nil || !core.InModule(fn) || fn.Pkg == nil || fn.Pkg.Pkg.Path() != core.Module+"/tds" {
+			continue
+		}
+		// Walk each block: sequence of (read, following increments of int locals before the next read)
+		for _, b := range fn.Blocks {
+			c06AccountBlockAs(r, rule, sb, fn, b)
+		}
+	}
+}
+
+// An "increment" is BinOp ADD whose one operand chain reaches a φ/earlier
+// counter and the other is the addend. We look, after a typed read in a
+// block, at the straight-line successor region on the success edge.
+func c06AccountBlockAs(r *core.Run, rule string, sb *shapeBuilder, fn *ssa.Function, b *ssa.BasicBlock) {
+	for i, in := range b.Instrs {
+		call, ok := in.(*ssa.Call)
+		if !ok {
+			continue
+		}
+		l, isL := sb.letterOf(call)
+		if !isL || readLetter[calleeName(call)] == "" {
+			continue
+		}
+		// success continuation: the block after the `err != nil` test (false/nil edge)
+		succ := successBlock(b, i)
+		if succ == nil {
+			continue
+		}
+		// first ADD in succ (before the next call) that adds to an int
+		var add *ssa.BinOp
+		for _, in2 := range succ.Instrs {
+			if ci, isCall := in2.(ssa.CallInstruction); isCall {
+				// post-processing of what was read (len, strings.TrimSuffix, conversions) is looked through; any
+				// call into the module (the next wire read, a nested reader) ends the region
+				if _, isBI := ci.Common().Value.(*ssa.Builtin); isBI {
+					continue
+				}
+				if f := ci.Common().StaticCallee(); f != nil && !core.InModule(f) && !ci.Common().IsInvoke() {
+					continue
+				}
+				break
+			}
+			if bo, ok := in2.(*ssa.BinOp); ok && bo.Op == token.ADD && isIntType(bo.Type()) {
+				add = bo
+				break
+			}
+		}
+		if add == nil {
+			// a format reader that reports its byte count (ReadFromField) accounts for every variable-length read
+			if l == "S" && fn.Name() == "ReadFromField" {
+				arg := call.Call.Args[len(call.Call.Args)-1]
+				counted := false
+				for _, in3 := range succ.Instrs {
+					if bo, ok := in3.(*ssa.BinOp); ok && bo.Op == token.ADD && (sameValue(core.Strip(bo.Y), core.Strip(arg)) || sameValue(core.Strip(bo.X), core.Strip(arg))) {
+						counted = true
+					}
+				}
+				if _, isC := core.ConstInt64(arg); !isC && !counted {
+					r.Bad(rule, core.FuncName(fn)+": "+calleeName(call)+" not accounted", call.Pos(), "a variable-length read of "+core.Expr(call.Call.Args[len(call.Call.Args)-1])+" bytes is not added to the byte count the function reports: the caller compares the count with the declared length of the format and rejects a well-formed package (e.g. a parameter format with locale information)")
+				}
+			}
+			continue // this read is not followed by an increment (e.g. length prefix, or counter-less parser)
+		}
+		key := core.FuncName(fn) + ": " + calleeName(call) + " then " + core.KExpr(add.Y)
+		addend := add.Y
+		switch l {
+		case "1", "2", "4", "8":
+			w := widthOfLetter(l)
+			if c, isC := core.ConstInt64(addend); isC {
+				r.Check(c == w, rule, key, add.Pos(),
+					fmt.Sprintf("%s is followed by n += %d", calleeName(call), w),
+					fmt.Sprintf("a %d-byte read (%s) is accounted as %d bytes: a valid package fails its own length check (or an invalid one passes)", w, calleeName(call), c))
+			} else {
+				// addend is a variable after a fixed-width read: e.g. n += k of an inlined reader — not this pattern
+				continue
+			}
+		case "S":
+			// n += int(lenVar) / len(dest): must be the length passed to the read, or len() of its result
+			arg := call.Call.Args[len(call.Call.Args)-1]
+			okAdd := sameValue(core.Strip(addend), core.Strip(arg))
+			if !okAdd {
+				if lc, ok := core.Strip(addend).(*ssa.Call); ok {
+					if bi, ok := lc.Call.Value.(*ssa.Builtin); ok && bi.Name() == "len" {
+						of := core.Strip(lc.Call.Args[0])
+						// len(pkg.F) where pkg.F was just assigned the result of this read
+						if ld, isLd := of.(*ssa.UnOp); isLd && ld.Op == token.MUL {
+							if fa, isFA := ld.X.(*ssa.FieldAddr); isFA {
+								var last ssa.Value
+								for _, in3 := range append(append([]ssa.Instruction{}, b.Instrs[i+1:]...), succ.Instrs...) {
+									if in3 == ssa.Instruction(ld) {
+										break
+									}
+									if st, isSt := in3.(*ssa.Store); isSt {
+										if fa2, ok2 := st.Addr.(*ssa.FieldAddr); ok2 && fa2.Field == fa.Field && core.Strip(fa2.X) == core.Strip(fa.X) {
+											last = core.Strip(st.Val)
+										}
+									}
+								}
+								if last != nil {
+									of = last
+								}
+							}
+						}
+						if ex, ok := of.(*ssa.Extract); ok && ex.Tuple == ssa.Value(call) {
+							okAdd = true
+						}
+					}
+				}
+			}
+			if _, isC := core.ConstInt64(addend); isC {
+				if ca, isCA := core.ConstInt64(arg); isCA {
+					c, _ := core.ConstInt64(addend)
+					okAdd = c == ca
+				}
+			}
+			r.Check(okAdd, rule, key, add.Pos(),
 				"variable-length read accounted with the length that was read",
 				"a variable-length read of "+core.Expr(arg)+" bytes is accounted as "+core.Expr(addend)+" bytes")
 		}
